@@ -1844,7 +1844,7 @@ bn_is_bit_set(bn_p bn, size_t bit) {
 	if (NULL == bn)
 		return (0);
 #if 1
-	if (BN_DIGIT_BITS > bit)
+	if (BN_DIGIT_BITS > bit && 0 != bn->digits) /* num[0] is stale if bn = 0. */
 		return (0 != (bn->num[0] & (((bn_digit_t)1) << bit)));
 #endif
 	if ((bn->digits * BN_DIGIT_BITS) <= bit)
